@@ -272,7 +272,11 @@ struct QObj : Obj {
   SK sk; int k; bool hra;
   QObj(SK&& s, int k, bool hra) : sk(std::move(s)), k(k), hra(hra) {}
   static SK fresh(int k, bool hra);
-  std::string observe() override { return observe_quantiles<SK, T, C>(sk, probes_for<T>()); }
+  // REQ: the summary and the per-level nominal capacities / sizes (to_string) are deterministic - they do not depend on the coin
+  template <typename S> static std::string shape_impl(const S& s, std::integral_constant<int, 1>) { return " shape-fnv=" + std::to_string(fnv1a(std::string(s.to_string(true, false).c_str()))); }
+  template <typename S, int K2> static std::string shape_impl(const S&, std::integral_constant<int, K2>) { return std::string(); }
+  std::string shape(const SK& s) const { return shape_impl(s, std::integral_constant<int, KIND>()); }
+  std::string observe() override { std::string o = observe_quantiles<SK, T, C>(sk, probes_for<T>()); return o + shape(sk); }
   Bytes bytes(unsigned h, int) override { return to_bytes(sk.serialize(h)); }
   std::string stream(int) override { return ser_stream(sk); }
   P from_bytes(const uint8_t* p, size_t n) override { return P(new QObj(SK::deserialize(p, n), k, hra)); }
@@ -291,6 +295,8 @@ struct QObj : Obj {
     // deterministic facts are comparable
     std::ostringstream o; o << "k=" << sk.get_k() << " n=" << sk.get_n() << " empty=" << sk.is_empty();
     if (!sk.is_empty()) { o << " min=" << ItemGen<T>::show(sk.get_min_item()) << " max=" << ItemGen<T>::show(sk.get_max_item()); uint64_t w = 0; for (auto it = sk.begin(); it != sk.end(); ++it) w += (*it).second; o << " wsum=" << w; }
+    sk.get_rank(sk.is_empty() ? T() : sk.get_min_item());  // sorts level zero, so that the "Sorted" line is the same on both sides
+    o << " retained=" << sk.get_num_retained() << shape(sk);   // counts and capacities are deterministic whatever the coin does
     return o.str();
   }
 };
@@ -467,6 +473,18 @@ struct TdObj : Obj {
   void cont(const Op& op) override { if (op.name == "m") { SK o(sk.get_k()); feed(o, op); sk.merge(o); } else feed(sk, op); }
   bool observe_changes_state() override { return true; }
   bool beyond_exact() override { return sk.get_total_weight() > 2u * sk.get_k(); }
+  // After continuing, compare at 9 significant digits: an image does not record whether a value sat in the buffer or in a
+  // centroid (e.g. the single-value form), so the restored digest may compress the same values in another order and its
+  // answers differ in the last digits - same content, different floating-point summation order.
+  std::string observe_coarse() override {
+    std::ostringstream o; o << "k=" << sk.get_k() << " w=" << sk.get_total_weight() << " empty=" << sk.is_empty();
+    if (sk.is_empty()) return o.str();
+    o << " min=" << num(sk.get_min_value()) << " max=" << num(sk.get_max_value());
+    char b[40];
+    for (double v : {-600.0, 0.0, 2.0, 7.0, 50.0, 333.5, 1e9}) { snprintf(b, sizeof b, "%.9g", sk.get_rank(static_cast<T>(v))); o << " r(" << v << ")=" << b; }
+    for (int i = 0; i <= 40; ++i) { snprintf(b, sizeof b, "%.9g", static_cast<double>(sk.get_quantile(i / 40.0))); o << " q(" << i / 40.0 << ")=" << b; }
+    return o.str();
+  }
 };
 
 // ---------------------------------------------------------------- Bloom filter
